@@ -631,6 +631,61 @@ fn var_group(e: &mut Emitter, r: &mut Rng, kind: AirKind, want: &[usize], max_m:
     }
 }
 
+/// F-C11-3: in variable mode the circuit's final polynomial is sized for the LARGEST degree. For a
+/// shorter proof whose last FRI layer lives on N_last = 2^(d − active arities + rate) points with
+/// N_last < circuit length, add `a·(X^N_last − c)` to the final polynomial (c = shift^(2^(d+rate)),
+/// the value of x^N_last on that layer): every evaluation on the layer is unchanged, the proof is
+/// natively mis-shaped (final polynomial too long → REJECT), and with one query round the pow
+/// witness is re-ground so that the transcript (which absorbs the final polynomial) reproduces the
+/// honest query index with a valid grinding response. A circuit that does not bound the final
+/// polynomial by the ACTUAL degree accepts it.
+fn tail_group(e: &mut Emitter, r: &mut Rng, log: &mut Vec<Value>) {
+    use plonky2::field::extension::{Extendable, FieldExtension};
+    type FE = <F as Extendable<2>>::Extension;
+    let src = make_air(e, r, AirKind::Fib);
+    let (rate, pow_bits) = (1usize, 5u32);
+    let config = mk_config(rate, 2, pow_bits, FriReductionStrategy::ConstantArityBits(4, 3), 1, 2);
+    let (big, m) = (8usize, 5usize);
+    if !admissible(&config, &[5, 6, 7, 8]) { e.count("final-polynomial tail group: configuration inadmissible"); return; }
+    let vp = Some(config.fri_params(big));
+    let lc = 1usize << (big - config.fri_params(big).reduction_arity_bits.iter().sum::<usize>());
+    let Some(o) = try_build(e, &src, &config, big, Some(m), log) else { return };
+    for d in m..big {
+        let active: usize = config.fri_params(d).reduction_arity_bits.iter().sum();
+        let nlast = 1usize << (d - active + rate);
+        if nlast >= lc { continue; }
+        let (rows, pis) = (src.sim)(r, 1 << d);
+        let Some(inst) = honest(e, "c11", &src.air, &config, vp.clone(), &rows, &pis, &format!("{} (variable mode {m}..={big}, final-polynomial tail)", src.name)) else { continue };
+        let (circ, _) = circuit_verdict(&o, &inst.proof, d);
+        if circ != "ACCEPT" { e.oracle_failures.push(format!("variable-degree circuit rejects an honest proof: {}", inst.what)); continue; }
+        e.stage(&format!("impl: re-grinding a proof with a final-polynomial tail beyond the actual degree: {}", inst.what));
+        let air = inst.air.clone();
+        let base = inst.proof.clone();
+        let vp2 = vp.clone();
+        let cfg = config.clone();
+        let a = FE::from_basefield_array([fe(1 + r.below(P - 1)), fe(r.below(P))]);
+        let found = catch_unwind(AssertUnwindSafe(move || {
+            let idx0 = fri_ch(&air, &cfg, &base, vp2.clone()).1;
+            let c = F::coset_shift().exp_power_of_2(d + rate);
+            let mut p2 = base.clone();
+            p2.proof.opening_proof.final_poly.coeffs.resize(lc, FE::ZERO);
+            p2.proof.opening_proof.final_poly.coeffs[nlast] += a;
+            p2.proof.opening_proof.final_poly.coeffs[0] -= a * FE::from_basefield_array([c, F::ZERO]);
+            for w in 0..(1u64 << 20) {
+                p2.proof.opening_proof.pow_witness = F::from_canonical_u64(w);
+                let (resp, idx) = fri_ch(&air, &cfg, &p2, vp2.clone());
+                if idx == idx0 && resp.leading_zeros() >= pow_bits { return Some(p2); }
+            }
+            None
+        }));
+        match found {
+            Ok(Some(p2)) => judge(e, &o, &inst, &format!("final polynomial tail: a·(X^{nlast} − c) added, {lc} coefficients instead of {}, re-ground", 1usize << (d - active)), &p2),
+            Ok(None) => e.count("final polynomial tail: no pow witness found"),
+            Err(_) => e.oracle_failures.push(format!("get_challenges panicked on a proof with a longer final polynomial: {}", inst.what)),
+        }
+    }
+}
+
 pub fn emit(e: &mut Emitter, seed: u64, thorough: bool) {
     let mut r = Rng::new(seed ^ 0x11);
     let per_class = if thorough { 2 } else { 1 };
@@ -652,6 +707,9 @@ pub fn emit(e: &mut Emitter, seed: u64, thorough: bool) {
             fixed_group(e, &mut r, kind, k, i % 4 == 1, per_class, thorough, &mut log);
         }
     }
+
+    // ---- variable mode: the final polynomial's tail beyond the actual degree (F-C11-3)
+    tail_group(e, &mut r, &mut log);
 
     // ---- variable mode: a power-of-two maximum (4 or 8), a degree-3 AIR, a lookup AIR
     let pow2 = if (seed / 4) % 2 == 0 { 8 } else { 4 };
